@@ -457,8 +457,8 @@ pub fn assess(b: &Built) -> Option<Assessment> {
     );
     // every parameter set of params.rs carries the PlutusV1 cost model only; the Babbage
     // validator takes the languages from the slot (PlutusV2 from mainnet epoch 366 on),
-    // which base B4 uses
-    let v2_available = era == Era::Babbage && b.slot >= params::V2_FROM_SLOT;
+    // which base B3v2 uses
+    let v2_available = (era == Era::Babbage && b.slot >= params::V2_FROM_SLOT) || (era == Era::Conway && b.params_era == Era::Conway && b.slot >= params::V2_MODEL_FROM_SLOT);
     table("language-available", langs_used.iter().any(|l| !(*l == 0 || (*l == 1 && v2_available))));
 
     // ---- rules outside the table (C34..C37 and the extraneous-script rule)
